@@ -5,17 +5,23 @@ package c12
 
 import (
 	"fmt"
+	"os"
 	"path/filepath"
 	"runtime"
 	"runtime/debug"
 	"strings"
+	"sync/atomic"
 	"testing"
+	"time"
 
 	"verifharness/internal/evid"
 	"verifharness/internal/kf"
 )
 
-func TestMain(m *testing.M) { evid.Main(m) }
+func TestMain(m *testing.M) {
+	startWatchdog()
+	evid.Main(m)
+}
 
 const (
 	repoModule = "github.com/idena-network/idena-go/"
@@ -38,11 +44,77 @@ type outcome struct {
 	alloc    uint64 // bytes allocated on the heap during the call
 }
 
+// call describes the entry-point call in flight (read by the watchdog).
+type call struct {
+	start time.Time
+	entry string
+	input func() string
+}
+
+var inFlight atomic.Pointer[call]
+
+// hangLimit is the wall time after which a single entry-point call is declared
+// hung. Calls normally take micro- to milliseconds (the slowest, certificates
+// with thousands of signatures, well under a second), so the limit is four to
+// six orders of magnitude away from anything that terminates; it only turns an
+// endless run into a reported violation. A hung goroutine cannot be stopped in
+// Go, so the watchdog reports and ends the process (no shrinking).
+var hangLimit = 60 * time.Second
+
+func startWatchdog() {
+	go func() {
+		for {
+			time.Sleep(time.Second)
+			c := inFlight.Load()
+			if c == nil || time.Since(c.start) < hangLimit {
+				continue
+			}
+			buf := make([]byte, 1<<20)
+			buf = buf[:runtime.Stack(buf, true)]
+			fn := "unknown"
+			for _, g := range strings.Split(string(buf), "\n\n") {
+				if strings.Contains(g, "c12.guard") {
+					fn = hangFrame(g)
+					buf = []byte(g)
+					break
+				}
+			}
+			key := "c12.hang." + sanitize(fn)
+			evid.Count("hang." + key)
+			evid.Flush()
+			// (the driver classifies a line starting with "panic: " on a dying process as a violation)
+			fmt.Fprintf(os.Stderr, "\npanic: FINDING property=C12 key=%s: %s did not return within %v\ninput: %s\ninnermost repository frame: %s\n%s\n", key, c.entry, hangLimit, c.input(), fn, trimStack(string(buf)))
+			os.Exit(2)
+		}
+	}()
+}
+
+// arithmetic one-liners of common/math never are the root of a hang: name their caller
+var mathHelpers = map[string]bool{"Sub": true, "Mul": true, "Add": true, "Div": true, "Pow": true, "Abs": true, "Lesser": true, "New": true, "Zero": true}
+
+func hangFrame(goroutine string) string {
+	for _, f := range framesAfterPanic(goroutine) {
+		if !strings.HasPrefix(f.fn, repoModule) {
+			continue
+		}
+		short := strings.TrimPrefix(f.fn, repoModule)
+		if strings.HasPrefix(short, "common/vclock.") || strings.HasPrefix(filepath.Base(f.file), "zz_verif_") {
+			continue
+		}
+		if strings.HasPrefix(short, "common/math.") && mathHelpers[strings.TrimPrefix(short, "common/math.")] {
+			continue
+		}
+		return short
+	}
+	return "unknown"
+}
+
 // guard runs f with a recover at the target boundary and measures the heap
 // allocated meanwhile (TotalAlloc is monotonic; the targets are single-threaded).
-func guard(f func()) (o outcome) {
+func guard(entry string, input func() string, f func()) (o outcome) {
 	var m0, m1 runtime.MemStats
 	runtime.ReadMemStats(&m0)
+	inFlight.Store(&call{time.Now(), entry, input})
 	func() {
 		defer func() {
 			if r := recover(); r != nil {
@@ -53,19 +125,22 @@ func guard(f func()) (o outcome) {
 		}()
 		f()
 	}()
+	inFlight.Store(nil)
 	runtime.ReadMemStats(&m1)
 	o.alloc = m1.TotalAlloc - m0.TotalAlloc
 	return
 }
 
 // guardFast is guard without the allocation measurement (ReadMemStats stops the world).
-func guardFast(f func()) (o outcome) {
+func guardFast(entry string, input func() string, f func()) (o outcome) {
+	inFlight.Store(&call{time.Now(), entry, input})
 	defer func() {
 		if r := recover(); r != nil {
 			o.panicked = true
 			o.val = r
 			o.stack = string(debug.Stack())
 		}
+		inFlight.Store(nil)
 	}()
 	f()
 	return
